@@ -557,4 +557,344 @@ example : ∀ op ∈ [Op.delGlyph "fg" "a", .rename "fg" "b" "d", .insertGlyph "
 example : Calm fx := by unfold Calm; decide
 example : ∀ op ∈ hx, op.isSuspend = false := by decide
 
+/-! ## 9. Layer-set operations, the default layer, operations through the font -/
+
+/-- two layers, `fg` the default one; a complete order -/
+def fy : Font :=
+  { layers := [("fg", { glyphs := ["a", "b"], observed := true }),
+               ("bg", { glyphs := ["a", "c"], observed := true })],
+    lib := some ["a", "b", "c"], default := some "fg" }
+
+example : WF fy := ⟨by decide, by decide⟩
+example : Calm fy := by unfold Calm; decide
+
+/-- Renaming a layer, re-assigning the layer order or the default layer, holding or disabling a
+layer's notifications, holding or releasing the font's own notifications: none of them changes the
+order (the lib is not touched; `releaseLayer` is the one operation of this family that can — section
+10). -/
+theorem layer_set_ops_keep_order (f : Font) :
+    (∀ o n, glyphOrder (step f (.renameLayer o n)).1 = glyphOrder f) ∧
+    (∀ ns, glyphOrder (step f (.setLayerOrder ns)).1 = glyphOrder f) ∧
+    (∀ n, glyphOrder (step f (.setDefault n)).1 = glyphOrder f) ∧
+    (∀ L, glyphOrder (step f (.holdLayer L)).1 = glyphOrder f) ∧
+    (∀ L, glyphOrder (step f (.disableLayer L)).1 = glyphOrder f) ∧
+    (∀ L, glyphOrder (step f (.enableLayer L)).1 = glyphOrder f) ∧
+    glyphOrder (step f .holdFont).1 = glyphOrder f ∧
+    glyphOrder (step f .releaseFont).1 = glyphOrder f := by
+  refine ⟨?_, ?_, ?_, ?_, ?_, ?_, rfl, ?_⟩
+  · intro o n
+    simp only [step, renameLayer]
+    cases AL.get? f.layers o with
+    | none => rfl
+    | some l => simp only; split <;> (try rfl); split <;> (try rfl); split <;> rfl
+  · intro ns
+    simp only [step, setLayerOrder]
+    split <;> (try rfl); split <;> rfl
+  · intro n; simp only [step, setDefault]; split <;> rfl
+  · intro L; simp only [step, holdLayer]; cases AL.get? f.layers L <;> rfl
+  · intro L; simp only [step, disableLayer]; cases AL.get? f.layers L <;> rfl
+  · intro L
+    simp only [step, enableLayer]
+    cases AL.get? f.layers L with
+    | none => rfl
+    | some l => simp only; split <;> rfl
+  · simp only [step, releaseFont]; split <;> rfl
+
+example : (step fy (.renameLayer "bg" "back")).1.layers.map (·.1) = ["fg", "back"] := by decide
+example : (step fy (.setLayerOrder ["bg", "fg"])).1.layers.map (·.1) = ["bg", "fg"] := by decide
+example : (step fy (.setLayerOrder ["bg", "bg"])).2 = .err .assertionError := by decide
+
+/-- A renamed layer keeps its glyphs under the new name and stays the default layer if it was: for a
+well-formed font, a layer `old` on which nothing is held or disabled and a fresh name `new`, the
+renaming succeeds, `font.layers[new]` has exactly the glyphs `font.layers[old]` had, no layer is
+called `old` any more, and which glyph names exist is unchanged. -/
+theorem layer_rename_keeps_glyphs (f : Font) (hw : WF f) (old new : String) (l : Layer)
+    (hget : AL.get? f.layers old = some l) (hne : old ≠ new) (hfree : AL.contains f.layers new = false)
+    (hq : l.held = 0 ∧ l.disabled = 0) :
+    (step f (.renameLayer old new)).2 = .ok ∧
+    AL.get? (step f (.renameLayer old new)).1.layers new = some l ∧
+    AL.get? (step f (.renameLayer old new)).1.layers old = none ∧
+    (∀ K, K ≠ old → K ≠ new →
+      AL.get? (step f (.renameLayer old new)).1.layers K = AL.get? f.layers K) ∧
+    (step f (.renameLayer old new)).1.default = (if f.default = some old then some new else f.default) := by
+  have hnew : new ∉ AL.keys f.layers := not_mem_keys_of_contains_false (by simp [hfree])
+  have hne' : ¬ new = old := fun e => hne e.symm
+  have e : step f (.renameLayer old new) =
+      ({ f with layers := renameKey f.layers old new,
+                default := if f.default = some old then some new else f.default }, .ok) := by
+    simp only [step, renameLayer, hget, hne, hfree, if_false, hq.1, hq.2]
+    simp
+  rw [e]
+  refine ⟨rfl, ?_, ?_, ?_, rfl⟩
+  · simp only; rw [get?_renameKey old new hw.names hnew, if_pos rfl, hget]
+  · simp only; rw [get?_renameKey old new hw.names hnew]; simp [hne]
+  · intro K h1 h2
+    simp only; rw [get?_renameKey old new hw.names hnew, if_neg h2, if_neg h1]
+
+example : (step fy (.renameLayer "fg" "front")).1.default = some "front" := by decide
+
+/-- `font.newGlyph`, `font.insertGlyph`, `del font[name]` ARE the operations of the default layer
+while that layer is one of the font's layers. -/
+theorem font_ops_are_default_layer_ops (f : Font) (L : String) (h : f.default = some L) (g : Name) :
+    step f (.fontNewGlyph g) = step f (.newGlyph L g) ∧
+    step f (.fontInsertGlyph g) = step f (.insertGlyph L g) ∧
+    step f (.fontDelGlyph g) = step f (.delGlyph L g) := by
+  simp only [step, fontNewGlyph, fontInsertGlyph, fontDelGlyph, h, and_self]
+
+/-- The library lets the default layer be deleted (`LayerSet.__delitem__` does not refuse):
+`defaultLayer` then is a layer that no longer belongs to the font, and nothing the font-level glyph
+operations do on it reaches a layer of the font or the order — until another layer is made the
+default one. -/
+theorem default_layer_deleted (f : Font) (L : String) (l : Layer) (hd : f.default = some L)
+    (hget : AL.get? f.layers L = some l) :
+    (step f (.delLayer L)).2 = .ok ∧
+    (step f (.delLayer L)).1.default = none ∧
+    fontKeys (step f (.delLayer L)).1 = l.glyphs ∧
+    glyphOrder (step f (.delLayer L)).1 = glyphOrder f := by
+  simp only [step, delLayer, hget, hd, if_true, fontKeys, and_self]
+  trivial
+
+/-- … the font-level glyph operations then leave every layer of the font and the lib alone. -/
+theorem detached_default_ops_silent (f : Font) (h : f.default = none) (g : Name) :
+    ((step f (.fontNewGlyph g)).1.layers = f.layers ∧ (step f (.fontNewGlyph g)).1.lib = f.lib) ∧
+    ((step f (.fontInsertGlyph g)).1.layers = f.layers ∧ (step f (.fontInsertGlyph g)).1.lib = f.lib) ∧
+    ((step f (.fontDelGlyph g)).1.layers = f.layers ∧ (step f (.fontDelGlyph g)).1.lib = f.lib) := by
+  simp only [step, fontNewGlyph, fontInsertGlyph, fontDelGlyph, h, and_self, true_and]
+  split <;> exact ⟨rfl, rfl⟩
+
+example : glyphOrder (run fy [.delLayer "fg", .fontNewGlyph "q", .setDefault "bg", .fontNewGlyph "r"]) =
+    ["a", "b", "c", "r"] := by decide
+example : fontKeys (run fy [.delLayer "fg", .fontNewGlyph "q"]) = ["a", "b", "q"] := by decide
+
+/-- Creating a glyph over an existing name with `newGlyph` in one layer while another layer keeps a
+glyph of that name (or not): the name is in the order already, so nothing is appended and nothing
+moves — a corollary of `created_in_order`. -/
+theorem recreated_keeps_place (f0 : Font) (h0 : WF f0) (ops : List Op) (L : String) (g : Name)
+    (hL : HasLayer (run f0 ops) L) (hq : Undisturbed (run f0 ops) L)
+    (hin : g ∈ glyphOrder (run f0 ops)) :
+    glyphOrder (step (run f0 ops) (.newGlyph L g)).1 = glyphOrder (run f0 ops) := by
+  rw [(created_in_order f0 h0 ops L g hL hq).2.2.2, if_pos hin]
+
+example : glyphOrder (step fy (.fontNewGlyph "a")).1 = ["a", "b", "c"] := by decide
+
+/-! ## 10. User-level holds: deferred delivery -/
+
+/-- While a layer's notifications are held or disabled, glyph operations on it change its names and
+nothing else the font knows: the order and the lib stay as they are. -/
+theorem suspended_ops_are_silent (f : Font) (L : String) (l : Layer)
+    (hget : AL.get? f.layers L = some l) (g g2 : Name) :
+    (l.held ≠ 0 ∧ l.disabled = 0 →
+      (step f (.newGlyph L g)).1.lib = f.lib ∧ (step f (.insertGlyph L g)).1.lib = f.lib ∧
+      (step f (.delGlyph L g)).1.lib = f.lib ∧ (step f (.rename L g g2)).1.lib = f.lib) ∧
+    (l.disabled ≠ 0 →
+      (step f (.newGlyph L g)).1.lib = f.lib ∧
+      (step f (.delGlyph L g)).1.lib = f.lib ∧ (step f (.rename L g g2)).1.lib = f.lib) := by
+  constructor
+  · rintro ⟨hh, hd⟩
+    refine ⟨?_, ?_, ?_, ?_⟩
+    · simp only [step]; rw [newGlyph_held hget hh hd]; rfl
+    · simp only [step]; rw [insertGlyph_held hget hh hd, newGlyph_held hget hh hd]; rfl
+    · simp only [step]
+      by_cases hm : g ∈ l.glyphs
+      · rw [delGlyph_held hget hh hd hm]; rfl
+      · simp [delGlyph, hget, hm]
+    · simp only [step]
+      by_cases hm : g ∈ l.glyphs
+      · by_cases hne : g = g2
+        · subst hne; simp [rename, hget, hm]
+        · rw [rename_held hget hh hd hm hne]; rfl
+      · simp [rename, hget, hm]
+  · intro hd
+    refine ⟨?_, ?_, ?_⟩
+    · simp only [step]; rw [newGlyph_disabled hget hd]; rfl
+    · simp only [step]
+      by_cases hm : g ∈ l.glyphs
+      · rw [delGlyph_disabled hget hd hm]; rfl
+      · simp [delGlyph, hget, hm]
+    · simp only [step]
+      by_cases hm : g ∈ l.glyphs
+      · by_cases hne : g = g2
+        · subst hne; simp [rename, hget, hm]
+        · rw [rename_disabled hget hd hm hne]; rfl
+      · simp [rename, hget, hm]
+
+/-- one layer `fg` with three glyphs next to a layer `bg` that shares `c`; a complete order -/
+def fh : Font :=
+  { layers := [("fg", { glyphs := ["a", "b", "c"], observed := true }),
+               ("bg", { glyphs := ["c"], observed := true })],
+    lib := some ["a", "b", "c"], default := some "fg" }
+
+example : WF fh := ⟨by decide, by decide⟩
+example : CalmLayer fh "fg" := ⟨{ glyphs := ["a", "b", "c"], observed := true }, by decide, by decide⟩
+
+/-- The release of a hold, in any well-formed font (every state a history reaches is one:
+`all_layers_observed`), whatever built the queue: when the count drops from 1 to 0 on a layer that is
+not disabled, the held `Layer.GlyphAdded / GlyphDeleted / GlyphNameChanged` are delivered in the
+order in which they were queued, and EVERY callback evaluates "does any layer still have the name" on
+the layers as they are at the release (`anyLayerHas f`, the same for the whole queue) — not as they
+were when the notification was posted.  The layer's names are not touched, its queue is empty and
+its hold count 0 afterwards. -/
+theorem release_delivers_queue (f : Font) (hw : WF f) (L : String) (l : Layer)
+    (hget : AL.get? f.layers L = some l) (hh : l.held = 1) (hd : l.disabled = 0) :
+    (step f (.releaseLayer L)).2 = .ok ∧
+    (step f (.releaseLayer L)).1.layers = (setLayer f L { l with held := 0, queue := [] }).layers ∧
+    glyphOrder (step f (.releaseLayer L)).1 = specDeliverAll (anyLayerHas f) (glyphOrder f) l.queue :=
+  releaseLayer_last hw hget hh hd
+
+/-- A release that is not the last one (`held > 1`: nested holds, or `insertGlyph`'s own bracket inside
+a user-level hold) delivers nothing; a release on a layer that is disabled at that moment drops the
+queue; a release with nothing held raises KeyError. -/
+theorem release_inner_or_disabled (f : Font) (L : String) (l : Layer)
+    (hget : AL.get? f.layers L = some l) :
+    (l.held = 0 → step f (.releaseLayer L) = (f, .err .keyError)) ∧
+    (2 ≤ l.held → (step f (.releaseLayer L)).1 = setLayer f L { l with held := l.held - 1 }) ∧
+    (l.held = 1 → l.disabled ≠ 0 →
+      (step f (.releaseLayer L)).1 = setLayer f L { l with held := 0, queue := [] }) := by
+  refine ⟨?_, ?_, ?_⟩
+  · intro h; simp [step, releaseLayer, hget, h]
+  · intro h
+    have h0 : ¬ l.held = 0 := by omega
+    have h1 : ¬ l.held = 1 := by omega
+    simp [step, releaseLayer, hget, h0, h1]
+  · intro h1 hd; exact releaseLayer_last_disabled hget h1 hd
+
+example : glyphOrder (run fh [.holdLayer "fg", .holdLayer "fg", .newGlyph "fg" "z", .releaseLayer "fg"]) =
+    ["a", "b", "c"] := by decide
+example : glyphOrder (run fh [.holdLayer "fg", .holdLayer "fg", .newGlyph "fg" "z", .releaseLayer "fg",
+    .releaseLayer "fg"]) = ["a", "b", "c", "z"] := by decide
+
+/-- `held_block_order`.  In any well-formed font, take a layer `L` on which nothing is held, disabled
+or queued, hold its notifications, run ANY block of glyph operations on it (create, insert, delete,
+rename, with any names, also failing ones), release.  Then, with "exists" meaning "some layer has a
+glyph of that name AT THE RELEASE":
+* during the block the font hears nothing: just before the release the order is the old one;
+* the layer's names are what the operations made of them, every other layer is untouched, and the
+  layer is calm again;
+* the order after the release is the old order after the delivery of the block's notifications
+  (coalesced by the centre), each evaluated against the state at the release;
+* created: every name the layer has at the release is in the order — unless the layer had it before
+  the block and it was missing from the order then (partial start orders);
+* deleted: a name leaves the order only if no layer has it at the release;
+* the names that were in the order and exist at the release stand exactly as they stood (none
+  dropped, moved or duplicated).
+(No new duplicates and the relative order of untouched names are sections 5 and 6: they hold for
+every history, this one included.) -/
+theorem held_block_order (f : Font) (hw : WF f) (L : String) (l : Layer)
+    (hget : AL.get? f.layers L = some l) (hc : l.calm) (block : List Op)
+    (hb : ∀ op ∈ block, op.onLayer L = true) :
+    glyphOrder (run f (.holdLayer L :: block)) = glyphOrder f ∧
+    (heldRun f L block).layers = (setLayer f L { l with glyphs := (blockRun (l.glyphs, []) block).1 }).layers ∧
+    glyphOrder (heldRun f L block) =
+      specDeliverAll (anyLayerHas (heldRun f L block)) (glyphOrder f)
+        (coalesce [] (blockRun (l.glyphs, []) block).2) ∧
+    (∀ g, HasGlyph (heldRun f L block) L g →
+      g ∈ glyphOrder (heldRun f L block) ∨ (g ∈ l.glyphs ∧ g ∉ glyphOrder f)) ∧
+    (∀ n, n ∈ glyphOrder f → n ∉ glyphOrder (heldRun f L block) → ¬ Exists (heldRun f L block) n) ∧
+    (∀ p : Name → Bool, (∀ x, p x = true → Exists (heldRun f L block) x ∧ x ∈ glyphOrder f) →
+      (glyphOrder (heldRun f L block)).filter p = (glyphOrder f).filter p) := by
+  obtain ⟨h1, h2, h3⟩ := heldRun_spec hw hget hc block hb
+  have hwH : WF (heldRun f L block) := wf_run hw _
+  have hex : ∀ n, anyLayerHas (heldRun f L block) n = true ↔ Exists (heldRun f L block) n :=
+    fun n => anyLayerHas_iff hwH.names n
+  refine ⟨by rw [h1]; rfl, h2, h3, ?_, ?_, ?_⟩
+  · rintro g ⟨l', hget', hm⟩
+    have hl' : l' = { l with glyphs := (blockRun (l.glyphs, []) block).1 } := by
+      rw [h2, get?_setLayer, if_pos rfl] at hget'; exact (Option.some.inj hget').symm
+    have hgB : g ∈ (blockRun (l.glyphs, []) block).1 := by rw [hl'] at hm; exact hm
+    have hexg : anyLayerHas (heldRun f L block) g = true := (hex g).mpr ⟨L, l', hget', hm⟩
+    rcases blockRun_names (l.glyphs, []) block hgB with hin | ⟨nt, hnt, hi⟩
+    · by_cases ho : g ∈ glyphOrder f
+      · left; rw [h3]; exact mem_deliverAll_keep hexg _ ho
+      · right; exact ⟨hin, ho⟩
+    · left; rw [h3]
+      exact mem_deliverAll_intro hexg _ ⟨nt, mem_coalesce.mpr (Or.inr hnt), hi⟩
+  · intro n hin hout hexn
+    apply hout
+    rw [h3]
+    exact mem_deliverAll_keep ((hex n).mpr hexn) _ hin
+  · intro p hp
+    rw [h3]
+    exact filter_deliverAll_kept _ _ _ p (fun x hx => ⟨(hex x).mpr (hp x hx).1, (hp x hx).2⟩)
+
+example : ∀ op ∈ [Op.delGlyph "fg" "a", .newGlyph "fg" "z", .rename "fg" "b" "y", .delGlyph "fg" "z"],
+    op.onLayer "fg" = true := by decide
+example : glyphOrder (heldRun fh "fg" [.delGlyph "fg" "a", .newGlyph "fg" "z", .rename "fg" "b" "y",
+    .delGlyph "fg" "z"]) = ["y", "c"] := by decide
+example : blockRun (["a", "b", "c"], []) [.delGlyph "fg" "a", .newGlyph "fg" "z", .rename "fg" "b" "y",
+    .delGlyph "fg" "z"] = (["c", "y"], [.deleted "a", .added "z", .renamed "b" "y", .deleted "z"]) := by
+  decide
+
+/-- `rename_chain_under_hold`: a glyph renamed `a → b → c` inside one hold.  If `a` is listed, `b` and
+`c` are not, the names are different and no other layer has a glyph called `a` or `b`, then after the
+release `c` stands exactly where `a` stood (the way-point `b` took the place at the first delivery and
+handed it on at the second), the length is unchanged and no other index is touched — the outcome of
+the two renamings done without a hold. -/
+theorem rename_chain_under_hold (f : Font) (hw : WF f) (L : String) (l : Layer)
+    (hget : AL.get? f.layers L = some l) (hc : l.calm) (a b c : Name)
+    (ha : a ∈ l.glyphs) (hab : a ≠ b) (hbc : b ≠ c) (hac : a ≠ c)
+    (hea : ¬ ExistsElsewhere f L a) (heb : ¬ ExistsElsewhere f L b)
+    (hoa : a ∈ glyphOrder f) (hob : b ∉ glyphOrder f) (hoc : c ∉ glyphOrder f) :
+    glyphOrder (heldRun f L [.rename L a b, .rename L b c]) = replaceFirst (glyphOrder f) a c ∧
+    ∃ i, indexOf? (glyphOrder f) a = some i ∧
+      glyphOrder (heldRun f L [.rename L a b, .rename L b c]) = (glyphOrder f).set i c := by
+  have hb : ∀ op ∈ [Op.rename L a b, .rename L b c], op.onLayer L = true := by
+    intro op ho; simp at ho; rcases ho with rfl | rfl <;> simp [Op.onLayer]
+  obtain ⟨_, h2, h3, _⟩ := held_block_order f hw L l hget hc _ hb
+  have hbin : b ∈ addName (removeName l.glyphs a) b := mem_addName.mpr (Or.inr rfl)
+  have hrun : blockRun (l.glyphs, []) [.rename L a b, .rename L b c] =
+      (addName (removeName (addName (removeName l.glyphs a) b) b) c, [.renamed a b, .renamed b c]) := by
+    simp [blockRun, blockStep, ha, hab, hbc, hbin]
+  have hwH : WF (heldRun f L [.rename L a b, .rename L b c]) := wf_run hw _
+  have gone : ∀ x, x ≠ c → (x = a ∨ x = b) → ¬ ExistsElsewhere f L x →
+      anyLayerHas (heldRun f L [.rename L a b, .rename L b c]) x = false := by
+    intro x hxc hx hel
+    rw [anyLayerHas_false_iff hwH.names, exists_congr h2, exists_setLayer, hrun]
+    simp only [not_or]
+    refine ⟨hel, ?_⟩
+    simp only [mem_addName, mem_removeName]
+    rcases hx with rfl | rfl
+    · simp [hab, hxc]
+    · simp [hxc]
+  have ga := gone a hac (Or.inl rfl) hea
+  have gb := gone b hbc (Or.inr rfl) heb
+  have hq : coalesce [] [Note.renamed a b, Note.renamed b c] = [.renamed a b, .renamed b c] := by
+    have : Note.renamed b c ≠ Note.renamed a b := by
+      intro e; injection e with e1 _; exact hab e1.symm
+    simp [coalesce, enqueue, this]
+  have hord : glyphOrder (heldRun f L [.rename L a b, .rename L b c]) = replaceFirst (glyphOrder f) a c := by
+    rw [h3, hrun]
+    simp only [hq, specDeliverAll, List.foldl_cons, List.foldl_nil, specDeliver, deliverArgs, ga, gb,
+      Bool.false_eq_true, if_false]
+    have hba : ¬ b = a := fun e => hab e.symm
+    have hcb : ¬ c = b := fun e => hbc e.symm
+    have h1 : specUpdate (glyphOrder f) (some b) (some a) = replaceFirst (glyphOrder f) a b := by
+      simp [specUpdate, hoa, hab, hob]
+    rw [h1]
+    have hb1 : b ∈ replaceFirst (glyphOrder f) a b := mem_replaceFirst_new hoa
+    have hc1 : c ∉ replaceFirst (glyphOrder f) a b := by
+      intro hm
+      rcases mem_replaceFirst hm with h | h
+      · exact hoc h
+      · exact hbc h.symm
+    have h2' : specUpdate (replaceFirst (glyphOrder f) a b) (some c) (some b) =
+        replaceFirst (replaceFirst (glyphOrder f) a b) b c := by
+      simp [specUpdate, hb1, hbc, hc1]
+    rw [h2', replaceFirst_replaceFirst hob]
+  refine ⟨hord, ?_⟩
+  cases hi : indexOf? (glyphOrder f) a with
+  | none => exact absurd hoa (indexOf?_eq_none.mp hi)
+  | some i => exact ⟨i, rfl, by rw [hord, set_indexOf hi]⟩
+
+example : glyphOrder (heldRun fh "fg" [.rename "fg" "a" "x", .rename "fg" "x" "y"]) = ["y", "b", "c"] := by
+  decide
+example : glyphOrder (run fh [.rename "fg" "a" "x", .rename "fg" "x" "y"]) = ["y", "b", "c"] := by decide
+example : ¬ ExistsElsewhere fh "fg" "a" := by
+  rintro ⟨L2, l2, hne, hget, hm⟩
+  simp only [fh, AL.get?_cons, AL.get?_nil] at hget
+  split at hget
+  · rename_i h; exact hne h.symm
+  · split at hget
+    · cases hget; simp at hm
+    · cases hget
+
 end DefconModel.Props.C12
